@@ -392,8 +392,9 @@ class PythonToIrCompiler:
             assert var.lvalue
             lhs = self.builder.emit_load(var.value, var.ty)
             rhs = self.gen_expr(statement.value)
-            op = self.binop_map[type(statement.op)]
-            value = self.emit(ir.Binop(lhs, op, rhs, "augassign", var.ty))
+            value = self.gen_arithmetic(
+                statement, lhs, type(statement.op), rhs, var.ty
+            )
             self.emit(ir.Store(value, var.value))
         else:  # pragma: no cover
             self.not_impl(statement)
@@ -509,13 +510,41 @@ class PythonToIrCompiler:
             # TODO: automatic coercion
         # TODO: assume type of a?
         ty = a.ty
-        op_typ = type(expr.op)
-        if op_typ in self.binop_map:
-            op = self.binop_map[op_typ]
-        else:
-            self.not_impl(expr)
-        value = self.builder.emit_binop(a, op, b, ty)
-        return value
+        return self.gen_arithmetic(expr, a, type(expr.op), b, ty)
+
+    def gen_arithmetic(self, node, a, op_typ, b, ty):
+        """Emit code for a binary arithmetic operator."""
+        if op_typ not in self.binop_map:
+            self.not_impl(node)
+        if op_typ is ast.FloorDiv and ty.is_integer:
+            return self.gen_floor_div(a, b, ty)
+        op = self.binop_map[op_typ]
+        return self.builder.emit_binop(a, op, b, ty)
+
+    def gen_floor_div(self, a, b, ty):
+        """Integer floor division.
+
+        The division of the IR truncates towards zero, while python rounds
+        the quotient towards minus infinity. So the quotient is one less
+        when the division is inexact and the signs of the operands differ,
+        that is, when the remainder is non-zero and its sign (which is the
+        sign of the dividend) differs from the sign of the divisor.
+        """
+        emit = self.builder.emit_binop
+        quotient = emit(a, "/", b, ty)
+        remainder = emit(a, "%", b, ty)
+        zero = self.builder.emit_const(0, ty)
+        sign_shift = self.builder.emit_const(ty.size * 8 - 1, ty)
+        # All ones if the remainder is not zero (arithmetic shift):
+        negated = emit(zero, "-", remainder, ty)
+        non_zero = emit(remainder, "|", negated, ty)
+        non_zero = emit(non_zero, ">>", sign_shift, ty)
+        # All ones if the signs of remainder and divisor differ:
+        differ = emit(remainder, "^", b, ty)
+        differ = emit(differ, ">>", sign_shift, ty)
+        # Minus one when both are the case:
+        correction = emit(non_zero, "&", differ, ty)
+        return emit(quotient, "+", correction, ty)
 
     def gen_call(self, expr):
         """Compile call-expression."""
